@@ -32,6 +32,9 @@ theorem verdict :
 #print axioms refutes_stale_cache
 #print axioms island_zero_panics
 #print axioms route_partition
+#print axioms unrouted_is_error
+#print axioms unrouted_nil_witness
+#print axioms refutes_unrouted_nil
 #print axioms every_name_routed
 #print axioms routing_gap_witness
 #print axioms routing_overlap_witness
